@@ -6,6 +6,7 @@ from ..env import gfapy, GfapyError
 from ..runner import Part, Violation
 
 ID = "C08"
+ATHERIS = ['gfa1', 'gfa2']  # parts also driven by libFuzzer in the thorough tier (vf/runner.py: all_parts)
 RULE = ("model-based histories (as C05) in which about half of the steps are calls BUILT TO FAIL against the "
         "current model state: add a line whose identifier is in use by a line of the same or of another type "
         "(mentioning fresh undefined identifiers), the same link again, a line of the other GFA version (string "
